@@ -46,3 +46,34 @@ Theorem C11_noninterference :
                                  (exec D host listened maxdepth fuel depth ii s2 f is).
 Proof. exact exec_noninterference. Qed.
 Print Assumptions C11_noninterference.
+
+(* ... at the level of HISTORIES: calls into two groups of instances A and B whose footprints are disjoint are
+   interleaved in ANY schedule on one store (each call: any instance of its group, any code, frame, fuel, depth).
+   The outcomes of A's calls in the interleaved run are, call by call, those of the run that makes A's calls only:
+   the same kind of outcome, the same trap, the same values and locals, and stores that agree on A's footprint.
+   ([finished]: no call of the interleaved run exhausts the model's fuel.) *)
+From Verif Require Import Proofs.InterleaveP.
+Theorem C11_interleaved_as_alone :
+  forall D host listened maxdepth (s0 : store D) (FmA FgA FmB FgB : nat -> Prop),
+  (forall a, FmA a -> FmB a -> False) -> (forall g, FgA g -> FgB g -> False) ->
+  (forall ii k fa ci tp tr nl body, okfp D s0 FmA FgA ii ->
+     nth_error (i_funcs (the_inst D s0 ii)) k = Some fa -> nth_error (s_funcs s0) fa = Some (FWasm ci tp tr nl body) -> okfp D s0 FmA FgA ci) ->
+  (forall ii ta fa ci tp tr nl body, okfp D s0 FmA FgA ii ->
+     i_tab (the_inst D s0 ii) = Some ta -> In (Some fa) (nth ta (s_tabs s0) []) ->
+     nth_error (s_funcs s0) fa = Some (FWasm ci tp tr nl body) -> okfp D s0 FmA FgA ci) ->
+  (forall h args g gargs ci tp tr nl body,
+     host h args = HReenter g gargs -> nth_error (s_funcs s0) g = Some (FWasm ci tp tr nl body) -> okfp D s0 FmA FgA ci) ->
+  (forall ii k fa ci tp tr nl body, okfp D s0 FmB FgB ii ->
+     nth_error (i_funcs (the_inst D s0 ii)) k = Some fa -> nth_error (s_funcs s0) fa = Some (FWasm ci tp tr nl body) -> okfp D s0 FmB FgB ci) ->
+  (forall ii ta fa ci tp tr nl body, okfp D s0 FmB FgB ii ->
+     i_tab (the_inst D s0 ii) = Some ta -> In (Some fa) (nth ta (s_tabs s0) []) ->
+     nth_error (s_funcs s0) fa = Some (FWasm ci tp tr nl body) -> okfp D s0 FmB FgB ci) ->
+  (forall h args g gargs ci tp tr nl body,
+     host h args = HReenter g gargs -> nth_error (s_funcs s0) g = Some (FWasm ci tp tr nl body) -> okfp D s0 FmB FgB ci) ->
+  forall s cs,
+  same_code D s0 s -> well_tagged D s0 FmA FgA FmB FgB cs -> finished D (run D host listened maxdepth s cs) ->
+  Forall2 (out_rel D D eq (agree D FmA FgA))
+    (outs_of D true (run D host listened maxdepth s cs))
+    (map snd (run D host listened maxdepth s (calls_of D true cs))).
+Proof. exact interleaved_as_alone. Qed.
+Print Assumptions C11_interleaved_as_alone.
